@@ -434,32 +434,45 @@ class Judgement:
         self.inp, self.out, self.d = inp, out, d
         self.mode = None          # "exact" | "rounded"
         self.scale = None
-        self.problem = None       # (clause-suffix, detail)
         n1, d1 = inp.nf
         exact_first = exact_space and representable([n1, d1], d)
         self.exact_expected = exact_first
         for r in ([Fraction(0)] if exact_first else []) + [radius(d)]:
-            n2, d2, en, ed = pa.from_tree_with_error(out.tree, r)
-            a, b = pa.p_mul(n1, d2), pa.p_mul(n2, d1)
-            e1, e2 = pa.p_mul(en, pa.p_abs(d1)), pa.p_mul(pa.p_abs(n1), ed)
-            if inp.op is None:
-                got = pa.feasible_scale(a, b, e1, e2, fixed=1, floor=r)
-            else:
-                got = pa.feasible_scale(a, b, e1, e2, floor=r)
-                if got is None and inp.op == "=":
-                    got = pa.feasible_scale(a, b, e1, e2, positive=False, floor=r)
+            got = self._fit(r, r)
+            if got is not None:
+                self.mode = "exact" if r == 0 else "rounded"
+                self.scale = got
+                return
+
+    def _fit(self, r, unit, keep=True):
+        """Is the output the input times a scale, if every numeral of the output may be off by r (and
+        every fluent carries a hidden factor 1 that may be off by `unit`)?"""
+        inp, out = self.inp, self.out
+        n1, d1 = inp.nf
+        n2, d2, en, ed = pa.from_tree_with_error(out.tree, r, unit)
+        a, b = pa.p_mul(n1, d2), pa.p_mul(n2, d1)
+        e1, e2 = pa.p_mul(en, pa.p_abs(d1)), pa.p_mul(pa.p_abs(n1), ed)
+        floor = max(r, unit)
+        if inp.op is None:
+            got = pa.feasible_scale(a, b, e1, e2, fixed=1, floor=floor)
+        else:
+            got = pa.feasible_scale(a, b, e1, e2, floor=floor)
+            if got is None and inp.op == "=":
+                got = pa.feasible_scale(a, b, e1, e2, positive=False, floor=floor)
+        if keep:
             self.a, self.b, self.r = a, b, r
             self.d1, self.d2, self.ed = d1, d2, ed
             # bound on |B - B*| at a point: error of the numerals + vanished terms
             eb = dict(e1)
             for m in a:
                 if m not in b:
-                    eb[m] = eb.get(m, 0) + r
+                    eb[m] = eb.get(m, 0) + floor
             self.eb = {m: c for m, c in eb.items() if c}
-            if got is not None:
-                self.mode = "exact" if r == 0 else "rounded"
-                self.scale = got
-                return
+        return got
+
+    def explained_by_truncation(self):
+        """Would the output fit if numerals had been cut to integers (error < 1) instead of rounded?"""
+        return self._fit(Fraction(1), radius(self.d), keep=False) is not None
 
     def coefficient_ok(self):
         return self.mode is not None
@@ -516,17 +529,37 @@ def input_numerals(trees):
 
 
 def rounding_tags(numerals, d):
-    """Which known rounding hazards does the input contain at d digits?"""
+    """Which rounding hazards does the input contain at d digits?  (defect-class tags only; no oracle
+    depends on them)"""
     tags = set()
+    half = Fraction(1, 2 * 10 ** d)
     for s in numerals:
-        v = float(s)
+        v = Fraction(s)
         if v == 0:
             continue
-        if round(v, d).is_integer() and int(v) != round(v):
+        nearest = round(float(v), d)
+        if nearest.is_integer() and int(float(v)) != nearest:
             tags.add("int-truncation")
-        if round(v, d) == 0 or (round(v, d).is_integer() and int(v) == 0):
+        if abs(v) <= half or (nearest.is_integer() and int(float(v)) == 0):
             tags.add("zero-coefficient")
     return sorted(tags)
+
+
+def has_integer_subtraction(tree):
+    """(- 5 2): printed by the library as '(5 - 2)', which its fluent pattern also matches"""
+    if isinstance(tree, str) or tree[0] not in pa.OPS:
+        return False
+    if tree[0] == "-" and all(isinstance(x, str) and "." not in x for x in tree[1:]):
+        return True
+    return any(has_integer_subtraction(x) for x in tree[1:])
+
+
+def defect_tags(inp_trees, d, truncation_explains):
+    if truncation_explains:
+        return ["int-truncation"]
+    if any(has_integer_subtraction(t) for t in inp_trees):
+        return ["integer-subtraction-read-as-fluent"]
+    return rounding_tags(input_numerals(inp_trees), d) or ["unexplained"]
 
 
 def raised_tags(got: Raised):
@@ -540,6 +573,8 @@ def raised_tags(got: Raised):
         tags.append("constant-truth-value")
     elif got.type == "AttributeError" and "NoneType" in m:
         tags.append("no-fluent")
+    elif got.type == "TypeError" and "expected string" in m:
+        tags.append("numeral-lhs")
     elif got.type == "TypeError":
         tags.append("digits-type")
     return tags
@@ -585,6 +620,8 @@ def judge_single(ctx: Ctx, entry, inp: Cond, got, d, call_text, exact_space, dig
     except Structure as s:
         r.outcome("malformed-output")
         extra = rounding_tags(input_numerals([inp.tree]), d) if "none-operand" in s.tags else []
+        if s.clause == "foreign-leaf" and has_integer_subtraction(inp.tree):
+            extra.append("integer-subtraction-read-as-fluent")
         ctx.fail(s.clause, f"{entry} d={d}: {call_text} -> {s.detail}", "binary + - * / over numerals and fluents",
                  got, base_tags + s.tags + extra)
         return
@@ -595,16 +632,16 @@ def judge_single(ctx: Ctx, entry, inp: Cond, got, d, call_text, exact_space, dig
         out = Cond(op, lhs, rhs)
         j = Judgement(inp, out, d, exact_space)
         judged, skipped, bad = j.truth_line()
-        verdict = (j.mode, j.exact_expected, j.scale, judged, skipped, bad)
+        trunc = j.mode is None and j.explained_by_truncation()
+        verdict = (j.mode, j.exact_expected, j.scale, judged, skipped, bad, trunc)
         ctx.judged_cache[key] = verdict
-    mode, exact_expected, scale, judged, skipped, bad = verdict
+    mode, exact_expected, scale, judged, skipped, bad, trunc = verdict
     r.count("grid_points_judged", judged)
     r.count("grid_points_skipped_boundary", skipped)
     clause = "inequivalent-exact" if exact_expected else "inequivalent-rounding"
-    hazard = rounding_tags(input_numerals([inp.tree]), d)
     if mode is None:
         r.outcome("coefficients-differ")
-        tags = base_tags + ["coefficients"] + (hazard or ["unexplained"])
+        tags = base_tags + ["coefficients"] + defect_tags([inp.tree], d, trunc)
         tags.append("grid-agrees" if bad is None else "grid-disagrees")
         where = "" if bad is None else f"; e.g. at {fmt_val(bad[1])}: input {bad[2]}, output {bad[3]}"
         ctx.fail(clause, f"{entry} d={d}: {call_text} -> {got!r}: lhs-rhs is not "
@@ -617,7 +654,7 @@ def judge_single(ctx: Ctx, entry, inp: Cond, got, d, call_text, exact_space, dig
         if mode == "exact" and kind != "output-undefined":
             raise AssertionError(f"polyalg certifies {got!r} for {inp.text()} but they differ at {fmt_val(val)}")
         r.outcome("truth-differs")
-        tags = base_tags + [kind] + (hazard or ["unexplained"])
+        tags = base_tags + [kind] + defect_tags([inp.tree], d, False)
         ctx.fail("output-undefined" if kind == "output-undefined" else clause,
                  f"{entry} d={d}: {call_text} -> {got!r}: at {fmt_val(val)} input gives {v1}, output {v2}",
                  inp.text(), got, tags)
@@ -654,6 +691,10 @@ def check_expr(case, r):
                 got = guard(call_ineq, op, expr, rhs, d)
                 r.count("transitions")
                 judge_single(ctx, "simplify_inequality", c, got, d, repr(text), exact_space)
+            if isinstance(guard(lib_tree, op, expr, rhs), Raised):
+                # the library's reader does not take this input (a comparison of two numerals)
+                r.outcome("input-not-readable-by-library")
+                continue
             got = guard(call_tree, op, expr, rhs, d)
             r.count("transitions")
             judge_single(ctx, "tree.simplify_complex_numerical_pddl_expression", c, got, d, c.text(), exact_space)
@@ -713,7 +754,8 @@ def judge_set(ctx: Ctx, entry, inputs, got, d, exact_space):
     has_eq = any(c.op == "=" for c in inputs)
     # the requested digits apply to every printed numeral
     rad = Fraction(0) if exact_space else radius(d)
-    hazard = rounding_tags(numerals, d)
+    in_trees = [c.tree for c in inputs]
+    hazard = defect_tags(in_trees, d, False)
     clause = "inequivalent-exact" if exact_space else "inequivalent-rounding"
 
     # coefficient line: printed equalities against input equalities; everything when nothing is eliminated
@@ -730,9 +772,12 @@ def judge_set(ctx: Ctx, entry, inputs, got, d, exact_space):
             extra = []
             if o.op == "=" and d != 4 and any(Judgement(c, o, 4, False).coefficient_ok() for c in inputs if c.op == "="):
                 extra = ["digits-ignored"]
+            if not extra:
+                trunc = any(Judgement(c, o, d, exact_space).explained_by_truncation() for c in inputs if c.op == o.op)
+                extra = defect_tags(in_trees, d, trunc)
             ctx.fail(clause, f"{entry} d={d}: {desc} -> {got!r}: printed member {o.text()} is not a "
                      f"{'rounding at ' + str(d) + ' digits of a ' if not exact_space else ''}multiple of any input member",
-                     desc, got, base_tags + ["set", "coefficients"] + extra + (hazard or ["unexplained"]))
+                     desc, got, base_tags + ["set", "coefficients"] + extra)
             return
     if not has_eq:
         for c in inputs:
@@ -741,7 +786,7 @@ def judge_set(ctx: Ctx, entry, inputs, got, d, exact_space):
             if not any(matches(o, c) for o in outs):
                 r.outcome("set-member-missing")
                 ctx.fail("condition-dropped", f"{entry} d={d}: {desc} -> {got!r}: no printed member corresponds to "
-                         f"{c.text()}", desc, got, base_tags + ["set"] + (hazard or ["unexplained"]))
+                         f"{c.text()}", desc, got, base_tags + ["set"] + hazard)
                 return
 
     # truth line on the conjunction
@@ -793,7 +838,7 @@ def judge_set(ctx: Ctx, entry, inputs, got, d, exact_space):
             if has_eq:
                 tg.append("elimination")
             ctx.fail(cl, f"{entry} d={d}: {desc} -> {got!r}: at {fmt_val(val)} the inputs are {t_in}, the printed "
-                     f"conjunction is {t_out}", desc, got, base_tags + tg + (hazard or ["unexplained"]))
+                     f"conjunction is {t_out}", desc, got, base_tags + tg + hazard)
             return
     r.count("grid_points_judged", judged)
     r.count("grid_points_skipped_boundary", skipped)
